@@ -33,8 +33,10 @@ class Sandbox:
         shutil.rmtree(self.top, ignore_errors=True)
 
     def next_mtime(self):
+        """Logical clock for externally written files: strictly increasing, several ticks per second with
+        different nanosecond parts (so a comparison that truncates timestamps to seconds misses changes)."""
         self.clock += 1
-        return (500_000_000 + self.clock) * 1_000_000_000
+        return (500_000_000 + self.clock // 3) * 1_000_000_000 + (self.clock % 3) * 333_333_333 + (self.clock * 7919) % 1000
 
     def tmp_listing(self):
         return sorted(os.listdir(self.tmp))
